@@ -64,6 +64,8 @@ def explore(rep, props, n_hist, steps, seed, hg_kwargs=None, batch=250, term=Non
             cases.append(c)
         done += len(cases)
         divs, answers = corr.run_batch(cases) if fields is None else _run_batch_fields(cases, fields)
+        if len(rep.xreqs) < (12 if rep.tier == 'quick' else 120):
+            rep.xreqs += [[0, w] for (_, w, _) in cases[:12 if rep.tier == 'quick' else 120]]
         # oracles, batched through the terminal cache
         allf = []
         def go():
